@@ -1,6 +1,9 @@
 """Gen/Ctc16.v: the two content-type constants content.py builds its helpers on
-(UTF8_TEXT for text_content / content_from_*, JSON for json_content), read from
-the names bound in the imported testtools.content of the tree under test."""
+(UTF8_TEXT for text_content / content_from_*, JSON for json_content), obtained
+from the imported testtools.content of the tree under test by calling the public
+helpers text_content / json_content and reading `.content_type` (how content.py
+imports or names the constants is its own business); the public names
+testtools.content_type.UTF8_TEXT / JSON are read only if a helper cannot be called."""
 
 
 def _str(s):
@@ -15,8 +18,27 @@ def _ct(ct):
     return "{| ct_type := %s; ct_sub := %s; ct_params := [%s] |}" % (_str(ct.type), _str(ct.subtype), params)
 
 
+class _Consts:
+    pass
+
+
+def constants():
+    from testtools import content
+    m = _Consts()
+    for name, make in (("UTF8_TEXT", lambda: content.text_content("probe")),
+                       ("JSON", lambda: content.json_content({}))):
+        try:
+            ct = make().content_type
+            ct.type, ct.subtype, ct.parameters.items()
+        except Exception:  # noqa - the helper is gone or broken: the public constant
+            from testtools import content_type
+            ct = getattr(content_type, name)
+        setattr(m, name, ct)
+    return m
+
+
 def render():
-    from testtools import content as m
+    m = constants()
     return ("From Coq Require Import String.\n"
             "From TT Require Import Lib.Base Model.MimeCt.\n"
             "Definition UTF8_TEXT : ctype := %s.\n"
